@@ -102,4 +102,39 @@ CLAIMED = {
              "the antecedent before calling the user function; when_all/when_any fire under fetch_sub==1 / winning CAS only.",
         note="exactly-once under all interleavings needs the atomicity argument, which is not decided statically here",
     ),
+    "C24": dict(
+        technique="guard-dominance on compare-exchange success edges + must-pass-through release store, over clang CFGs of AsyncRequest<T>",
+        text="Every access to the payload is dominated by a winning compare-exchange on the state word (a plain load grants nothing with several "
+             "consumers/producers) and followed on every path by the release hand-back; each operation claims only the state it is entitled to.",
+        note="linearizability of histories and 'latest value' are not decided",
+    ),
+    "C37": dict(
+        technique="sibling loop-bound rule (count vs capacity) + ordering rules + member-coverage of swap over clang CFGs",
+        text="Loops over the buffer-pointer array are bounded by the count buffersPos_; grow_by allocates under the mutex, publishes the buffer before "
+             "enlarging allocatedSize_ (release) and constructs only after the reserving CAS; allocateBuffer writes the count slot and release-publishes "
+             "a replacement array; swap exchanges all nine state members.",
+        note="range disjointness under concurrency needs the CAS atomicity argument (not decided); content equality is a value property",
+    ),
+    "C40": dict(
+        technique="finite-state storage-balance analysis (engaged/empty per object, all paths) over clang CFGs of OpResult<T>",
+        text="ptr_ of either operand is overwritten (nulled or re-pointed by placement new) only where that object is known empty or its contained "
+             "object's destructor has just run; the destructor destroys whenever engaged. Explored exhaustively over (block,state) pairs for each "
+             "constructor/assignment/emplace/reset instantiation.",
+        note="value equality with std::optional is not decided",
+    ),
+    "C41": dict(
+        technique="lock-region analysis (tested acquire forms incl. CAS-retry validity, release on all paths) + index-bound guards over clang CFGs",
+        text="Every access to backingStore lies in a region entered through a valid tested acquire of backingStoreLock (a compare-exchange retry must "
+             "re-initialise its expected operand) and the lock is released on every path; the thread-local cache index stays within its array; thread "
+             "exit returns cached blocks.",
+        note="exclusivity across the moodycamel central store is trusted",
+    ),
+    "C42": dict(
+        category="proof",
+        technique="lock-region analysis + finite-state slab bookkeeping analysis over clang CFGs of PoolAllocatorT<true/false>",
+        text="Obligations implying single-threaded access to the free list and slab lists of the thread-safe allocator: every access inside "
+             "fetch_or(1)==0 ... store(0,release) on all paths; a new slab is recorded exactly once before carving; clear() moves all slabs to the reuse "
+             "list and alloc() consults it first; the destructor releases both lists element-wise.",
+        note="chunk disjointness arithmetic is not decided; std::vector and the user-supplied alloc/dealloc functions are trusted",
+    ),
 }
